@@ -135,7 +135,7 @@ def run_ec_frame(env, sh):
     reach and irrelevant to a frame condition) -- stated."""
     from vlib.models import ecref
     from Crypto.PublicKey import ECC
-    K = kern.kernel(env, 'ec_ws.c+mont.c')
+    K = kern.kernel(env, EC_UNIT)
     if env.sym:
         K.m.step_budget = 50000000          # concrete data: a whole scalar multiplication is a few million IR steps
     name = sh['curve']
